@@ -132,3 +132,78 @@ class BuildTsXy(Contract):
         return inv
 
     loops = {3: _inv_lags.__func__, 4: _inv_targets.__func__, 8: _inv_lags.__func__, 9: _inv_targets.__func__}
+
+    scopes = [dict(n=3, past=1, delay2=2, ncol=1), dict(n=4, past=2, delay2=2, ncol=1), dict(n=5, past=2, delay2=3, ncol=1),
+              dict(n=6, past=3, delay2=3, ncol=2)]
+
+
+def _absdiff_sum(E, y, w, n):
+    """spec term: sum_{t=1}^{n-1} |y[t-1]-y[t]| * w[t]   (ghost Sum)"""
+    from pyvc.ghost import sum1
+    ys = y.snapshot()
+    ws = w.snapshot() if w is not None else None
+
+    def f(i):
+        d = ys.get(i) - ys.get(i + 1)
+        a = z3.If(d >= 0, d, -d)
+        return a * ws.get(i + 1) if ws is not None else a
+    return sum1(E, NdArr.from_fn("spec", (n - 1,), "real", f))
+
+
+@contract("mlinsights/timeseries/metrics.py::ts_mape", "C20")
+class TsMape(Contract):
+    variants = [(kind, hw) for kind in ("any", "naive") for hw in (False, True)]
+    scopes = [dict(n=2), dict(n=3), dict(n=4)]
+
+    def setup(self, E, variant):
+        kind, has_w = variant
+        n = E.size("n", 2)
+        y = E.nd("y", (n,))
+        if kind == "naive":
+            p0 = E.real("p0")
+            ys = y.snapshot()
+            p = NdArr.from_fn("naive", (n,), "real", lambda t: z3.If(t >= 1, ys.get(t - 1), p0))
+        else:
+            p = E.nd("p", (n,))
+        w = E.nd("w", (n,)) if has_w else None
+        return dict(expected_y=y, predicted_y=p, sample_weight=w, _kind=kind)
+
+    def requires(self, E, a):
+        n = z(a.expected_y.shape[0])
+        out = {"n>=2": n >= 2}
+        if a.sample_weight is not None:
+            out["weights_nonneg"] = E.forall_range([(0, n)], lambda i: a.sample_weight.get(i) >= 0)
+        return out
+
+    def ensures(self, E, a, res, old):
+        n = z(a.expected_y.shape[0])
+        out = {}
+        if isinstance(res, str):
+            out["returns_a_number"] = z3.BoolVal(res == "inf+")
+            isnum = False
+        else:
+            isnum = True
+            out["returns_a_number"] = z3.BoolVal(res is not None)
+            out["non_negative"] = z(res) >= 0
+        if a._kind == "naive":
+            S = _absdiff_sum(E, a.expected_y, a.sample_weight, n)
+            if isnum:
+                out["naive_forecast_scores_1_unless_series_constant"] = z3.Implies(S != 0, z(res) == 1)
+            else:
+                out["naive_forecast_scores_1_unless_series_constant"] = z3.BoolVal(False)
+        return out
+
+    canaries = {
+        "always_below_one": lambda E, a, res, old: z3.BoolVal(False) if isinstance(res, str) else z(res) <= 1,
+    }
+
+
+META = dict(
+    level="proof",
+    assumptions=["A1", "A2", "A6", "A7", "A9"],
+    trusted=["ghost Sum with lemma instances sum_empty/sum_nonneg/sum_congr (statements in pyvc/ghost.py LEMMAS)",
+             "numpy.squeeze on a 1-d array of length != 1 returns it unchanged; numpy.ma.masked_array with an all-false mask is the data"],
+    not_applicable=["use_all_past=True (outside the property's quantifier)",
+                    "same_rows weights: the statement is ambiguous (code returns `weights` unchanged; upstream test expects that) - not asserted",
+                    "ts_mape with NaN predictions (masked sums): precondition excludes NaN"],
+)
